@@ -484,6 +484,7 @@ def build(repo, template_path, canary=False) -> SpliceResult:
     out, lmap = [], []
     functions, rules, dropped = [], {}, []
     canary_points = 0
+    main_seen = 0
     i = 0
     while i < len(tlines):
         line = tlines[i]
@@ -518,10 +519,18 @@ def build(repo, template_path, canary=False) -> SpliceResult:
             if i >= len(tlines):
                 raise AnchorLost('template: unterminated splice block')
             i += 1
-            is_canary_target = canary and ('canary' in kv or kv.get('role') == 'main')
+            is_main = ('canary' in kv or kv.get('role') == 'main')
+            if is_main:
+                main_seen += 1
+            if canary is True:
+                is_canary_target = is_main
+            elif canary is False or canary is None:
+                is_canary_target = False
+            else:
+                is_canary_target = is_main and (main_seen - 1) == int(canary)
             if is_canary_target and 'spec' not in sections:
                 sections['spec'] = ''
-            if is_canary_target:
+            if is_main:
                 canary_points += 1
             lines, lm, info = splice_fn(repo, kv['file'], kv['item'], sections, kv.get('trait'), int(kv.get('nth', 0)),
                                         opts, is_canary_target, rules, dropped)
